@@ -51,11 +51,33 @@ Proof.
 Qed.
 
 (* ---- get_max_column_index ---- *)
+Definition gmax0 (r : row) : Z :=
+  fold_left (fun m e => if gcounts tb e then Z.max m (fst e) else m) r 0.
+
+Lemma gmax_opt_fold : forall r mo,
+  match mo with Some m => 0 <= m | None => True end ->
+  match fold_left (fun m e => if gcounts tb e
+                              then Some (match m with Some v => Z.max v (fst e) | None => fst e end)
+                              else m) r mo with Some v => v | None => 0 end =
+  fold_left (fun m e => if gcounts tb e then Z.max m (fst e) else m) r
+            (match mo with Some m => m | None => 0 end).
+Proof.
+  induction r as [|e r IH]; intros mo M; cbn [fold_left]; [destruct mo; reflexivity|].
+  destruct (gcounts tb e) eqn:G.
+  - unfold gcounts in G. apply andb_true_iff in G. destruct G as [G0 _]. apply Z.leb_le in G0.
+    rewrite IH; [|destruct mo; lia]. destruct mo as [m|]; cbn; [reflexivity|].
+    rewrite Z.max_r by lia. reflexivity.
+  - apply IH; assumption.
+Qed.
+
+Lemma gmax_eq0 : forall r, gmax tb r = gmax0 r.
+Proof. intros r. unfold gmax, gmax_opt, gmax0. apply (gmax_opt_fold r None I). Qed.
+
 Lemma gmax_fold_ge : forall r m,
-  m <= fold_left (fun m e => if counts tb (snd e) then Z.max m (fst e) else m) r m.
+  m <= fold_left (fun m e => if gcounts tb e then Z.max m (fst e) else m) r m.
 Proof.
   induction r as [|e r IH]; intros m; cbn [fold_left]; [lia|].
-  destruct (counts tb (snd e)); [specialize (IH (Z.max m (fst e))); lia | apply IH].
+  destruct (gcounts tb e); [specialize (IH (Z.max m (fst e))); lia | apply IH].
 Qed.
 
 (* a cell that shows as a blank in (visibly) default attributes *)
@@ -74,22 +96,27 @@ Proof. split; reflexivity. Qed.
 (* get_max_column_index looks at explicit cells only: beyond it, a cell is
    either explicit and not counting, or absent (the default char) *)
 Lemma gmax_fold_spec : forall r m x,
-  fold_left (fun m e => if counts tb (snd e) then Z.max m (fst e) else m) r m < x ->
+  0 <= x ->
+  fold_left (fun m e => if gcounts tb e then Z.max m (fst e) else m) r m < x ->
   blankish (rget r x).
 Proof.
-  induction r as [|[i v] r IH]; intros m x H; cbn [fold_left rget fst snd] in *.
+  induction r as [|[i v] r IH]; intros m x Hx H; cbn [fold_left rget] in *.
   - apply blankish_dcell.
   - destruct (i =? x) eqn:E.
-    + apply Z.eqb_eq in E; subst i. destruct (counts tb v) eqn:C; [|apply notcounts_blankish; exact C].
-      pose proof (gmax_fold_ge r (Z.max m x)). lia.
+    + apply Z.eqb_eq in E; subst i. change (gcounts tb (x, v)) with ((0 <=? x) && counts tb v) in H.
+      destruct (0 <=? x) eqn:E0; [|apply Z.leb_gt in E0; lia]. cbn [andb] in H.
+      destruct (counts tb v) eqn:C; [|apply notcounts_blankish; exact C].
+      cbn [fst] in H. pose proof (gmax_fold_ge r (Z.max m x)). lia.
     + eapply IH; eauto.
 Qed.
 
-Lemma gmax_spec : forall r x, gmax tb r < x -> blankish (rget r x).
-Proof. intros. eapply gmax_fold_spec; eauto. Qed.
+(* columns are visited from 0 on, so only x >= 0 matters; cells at negative
+   indices are never looked at and never counted *)
+Lemma gmax_spec : forall r x, 0 <= x -> gmax tb r < x -> blankish (rget r x).
+Proof. intros r x Hx H. rewrite (gmax_eq0 r) in H. eapply gmax_fold_spec; eauto. Qed.
 
 Lemma gmax_nonneg : forall r, 0 <= gmax tb r.
-Proof. intros; apply gmax_fold_ge. Qed.
+Proof. intros r. rewrite (gmax_eq0 r). apply gmax_fold_ge. Qed.
 
 Lemma notcounts_shows_blank : forall c p, blankish c -> pvis p = pvis 0 -> shows (blank p) c.
 Proof.
@@ -461,7 +488,7 @@ Proof.
     + intros x Hx. cbn [tgrid]. unfold erase_line; cbn [tgrid cx cy pen].
       rewrite Cy, X2, K. change (0 =? 2) with false. cbv iota. rewrite Z.eqb_refl. cbn [andb].
       destruct (nmax + 1 <=? x) eqn:B.
-      * apply notcounts_shows_blank; [|reflexivity]. apply gmax_spec. change (gmax tb nr < x). lia.
+      * apply notcounts_shows_blank; [|reflexivity]. apply gmax_spec; [lia|]. change (gmax tb nr < x). lia.
       * rewrite G2. apply S1. lia.
   - inversion R; subst pos' ls' ks; clear R. fold t1.
     split; [exact I1|]. split; [exact V1|]. split; [exact U1|]. split; [|split]; cycle 2.
@@ -473,8 +500,8 @@ Proof.
         assert (GM : nmax = gmax tb nr) by (subst nmax; lia).
         assert (GP : pmax = gmax tb pr) by (subst pmax nmax; lia).
         apply (notcounts_shows_transfer _ _ (rget pr x)).
-        -- apply gmax_spec. change (gmax tb nr < x). lia.
-        -- apply gmax_spec. lia.
+        -- apply gmax_spec; [lia|]. change (gmax tb nr < x). lia.
+        -- apply gmax_spec; [lia|]. lia.
         -- apply HS. lia.
 Qed.
 
@@ -545,6 +572,7 @@ Lemma diff_body_ok : forall H fs done scr prev pos ls t pos' cv' ks,
   (done = false -> forall y x, Z.max (sh scr) (sh prev) <= y -> tgrid t' y x = tgrid t y x) /\
   okrun (Z.max (Z.max (snd pos) (Z.min (Z.max (sh scr) (sh prev)) H - 1)) (if done then cur_h else scy scr))
         (Z.min (Z.max (sh scr) (sh prev)) H - 1) W t ks /\
+  (forall y x, y < 0 -> tgrid t' y x = tgrid t y x) /\
   pen t' = 0 /\ pend t' = false /\ aw t' = (done || negb fs) /\
   cvis t' = sshow scr /\ cv' = Some (sshow scr) /\
   cx t' = fst pos' /\ cy t' = snd pos' /\
@@ -636,7 +664,9 @@ Proof.
     { intros tt. destruct (sshow scr); cbn in SC; inversion SC; subst; cbn; auto. }
     destruct (TAIL (trun W t3 [TED])) as (TE & CVE). rewrite TE.
     cbn [trun fold_left tstep tgrid cx cy pen aw cvis pend undef orb].
-    split; [congruence|]. split; [discriminate|]. split; [exact OKR|]. split; [reflexivity|]. split; [exact Cp|]. split; [reflexivity|].
+    split; [congruence|]. split; [discriminate|]. split; [exact OKR|].
+    split; [intros y x Hy; rewrite erase_down_above by lia; rewrite G3, G2; apply G1; lia|].
+    split; [reflexivity|]. split; [exact Cp|]. split; [reflexivity|].
     split; [rewrite V3, V2, V1, CV; destruct (sshow scr); reflexivity|]. split; [exact CVE|].
     split; [exact X3|]. split; [exact Cy|]. split; [discriminate|].
     intros _. split; [reflexivity|]. split.
@@ -680,6 +710,7 @@ Proof.
     split; [congruence|].
     split; [intros _ y x Hy; rewrite G3, G2; apply G1; lia|].
     split; [exact OKR|].
+    split; [intros y x Hy; rewrite G3, G2; apply G1; lia|].
     split; [reflexivity|]. split; [exact Cp|].
     split; [rewrite AW3; destruct fs; reflexivity|].
     split; [rewrite V3, V2, V1, CV; destruct (sshow scr); reflexivity|]. split; [exact CVE|].
@@ -719,6 +750,7 @@ Lemma screen_diff_ok : forall H fs done scr prev pos prevW cv t pos' cv' ks,
   undef (trun W t ks) = undef t /\ Rendered H fs done scr (trun W t ks) pos' cv' /\
   (forall p, prev = Some p -> done = false -> prevW = W ->
      forall y x, Z.max (sh scr) (sh p) <= y -> tgrid (trun W t ks) y x = tgrid t y x) /\
+  (forall y x, y < 0 -> tgrid (trun W t ks) y x = tgrid t y x) /\
   (* rows visited / written: b bounds the cursor row throughout, the second bound the rows written *)
   (forall b, snd pos <= b -> (if done then Z.min (sh scr) H else scy scr) <= b ->
      Z.min (Z.max (sh scr) (match prev with Some p => sh p | None => 0 end)) H - 1 <= b -> 0 <= b ->
@@ -788,9 +820,12 @@ Proof.
       cbn [andb]. apply shows_blank_dcell. }
     pose proof (diff_body_ok H fs done scr empty_screen (0, 0) None tc p3 c3 k4 HH Ws (wf_empty H HH) Ic Sc Vc
                   ltac:(intros _; split; [reflexivity|exact Nc]) DB) as R.
-    cbv zeta in R. destruct R as (U4 & _ & OKB & R).
+    cbv zeta in R. destruct R as (U4 & _ & OKB & AB & R).
     split; [congruence|]. split; [unfold Rendered; exact R|]. split.
     { intros p EP ED EW. subst prev done prevW. cbn [is_none orb] in FULL. rewrite Z.eqb_refl in FULL. discriminate. }
+    split.
+    { intros y x Hy. rewrite AB by exact Hy. rewrite Gc. rewrite erase_down_above by (cbn [tstep cy]; lia).
+      cbn [tstep tgrid]. rewrite Gb, Ga. reflexivity. }
     intros b B1 B2 B3 B0.
     replace (k0 ++ k1 ++ k2 ++ (k3 ++ [TSGR 0; TED]) ++ k4)
       with ((k0 ++ k1 ++ k2) ++ k3 ++ [TSGR 0; TED] ++ k4) by (rewrite <- !app_assoc; reflexivity).
@@ -810,9 +845,11 @@ Proof.
     rewrite trun_app. fold ta.
     assert (Sa : Shows H ta p) by (intros y x Hy Hx; rewrite Ga; apply Sp; auto).
     pose proof (diff_body_ok H fs false scr p pos None ta p3 c3 k4 HH Ws Wp Ia Sa Va ltac:(discriminate) DB) as R.
-    cbv zeta in R. destruct R as (U4 & FR & OKB & R).
+    cbv zeta in R. destruct R as (U4 & FR & OKB & AB & R).
     split; [congruence|]. split; [unfold Rendered; exact R|]. split.
     { intros p' EP _ _ y x Hy. inversion EP; subst p'. rewrite (FR eq_refl y x Hy). rewrite Ga. reflexivity. }
+    split.
+    { intros y x Hy. rewrite AB by exact Hy. rewrite Ga. reflexivity. }
     intros b B1 B2 B3 B0.
     replace (k0 ++ k1 ++ k2 ++ k4) with ((k0 ++ k1 ++ k2) ++ k4) by (rewrite <- !app_assoc; reflexivity).
     apply okrun_app. split; [apply OKP; auto|]. fold ta.
